@@ -1,5 +1,5 @@
 (* C02 — No unauthorised and no duplicate execution (statements only). *)
-From EAS Require Import Base Sched SchedInv SchedApi SchedProps SchedLog.
+From EAS Require Import Base Sched SchedInv SchedApi SchedProps SchedLog SchedOrder.
 From Coq Require Import Sorted.
 
 (* In every reachable state the queue - the only place jobs are started from - holds exactly the
@@ -25,3 +25,20 @@ Theorem C02_disabled_starts_nothing :
     step_op E fuel hs s o = (s', r) -> execs (log s') = execs (log s).
 Proof. exact disabled_quiet. Qed.
 Print Assumptions C02_disabled_starts_nothing.
+
+(* at most once per announced next-run time: inside one wake-up no job is started twice, and every start was
+   due (announced time <= now); afterwards the job is finished, paused, or re-announced strictly in the future
+   (C04).  Assumes triggers answer in the future and do not raise inside execute() (known finding F5). *)
+Theorem C02_no_job_twice_in_one_wake_up :
+  forall E, (forall j k t, exists v, prod E j k t = Ok v /\ t < v) ->
+  forall fuel hs s s', Inv s -> cx s = [] -> step_op E fuel hs s OWake = (s', Done) ->
+    StronglySorted (fun x y => snd y <= snd x) (cx s') /\ NoDup (map fst (cx s')).
+Proof. exact wake_order. Qed.
+Print Assumptions C02_no_job_twice_in_one_wake_up.
+
+Theorem C02_starts_were_due :
+  forall E, (forall j k t, exists v, prod E j k t = Ok v /\ t < v) ->
+  forall fuel hs s s' j a, Inv s -> cx s = [] -> step_op E fuel hs s OWake = (s', Done) ->
+    In (j, a) (cx s') -> a <= now s'.
+Proof. exact wake_starts_were_due. Qed.
+Print Assumptions C02_starts_were_due.
